@@ -298,6 +298,7 @@ func main() {
 	ctfe.MaxGetEntriesAllowed = 1000
 	flag.Set("align_getentries", "false")
 	realEntries(w, r)
+	overlapping(w, r)
 	w.Close()
 	fmt.Printf("c07: wrote %d cases\n", w.Len())
 }
